@@ -21,6 +21,22 @@ from .facts import repo_root
 def _apply(root: str, m: dict, dst: str) -> str:
     """copy src/ of root to dst and apply the edits of mutant m; returns '' or the reason it does not apply"""
     shutil.copytree(os.path.join(root, "src"), os.path.join(dst, "src"))
+    if m.get("diff"):
+        # a whole behaviour-preserving refactoring kept as a unified diff (benign/<id>/refactor.diff)
+        import subprocess
+        r = subprocess.run(["patch", "-p1", "-s", "--no-backup-if-mismatch", "-i", os.path.join(report.VERIF, m["diff"])],
+                           cwd=dst, capture_output=True, text=True)
+        if r.returncode != 0:
+            return "diff does not apply to this tree"
+        for dirpath, _, files in os.walk(os.path.join(dst, "src")):
+            for f in files:
+                if f.endswith(".py"):
+                    with open(os.path.join(dirpath, f)) as fh:
+                        try:
+                            ast.parse(fh.read())
+                        except SyntaxError as exc:
+                            return f"patched {f} does not parse: {exc}"
+        return ""
     for fname, old, new in m["edits"]:
         p = os.path.join(dst, "src", "someip", fname)
         with open(p) as fh:
